@@ -104,7 +104,8 @@ fn alter(v: &V, how: u8, seed: u64, is_ctx: bool) -> V {
         }
     };
     match (how % 8, bytes_of(v)) {
-        (0, Some(mut b)) if b.len() < 65535 => {
+        (0, Some(mut b)) if b.len() <= 65535 => {
+            // 65535 -> 65536 crosses the encodable limit: the longer value must be refused
             b.push(0);
             V::Bytes(BSpec::Lit(b))
         }
@@ -303,6 +304,11 @@ pub fn check(s: &'static dyn Proto, c: &Case, st: &mut Stats, _k: &KnownFindings
     let ctx_ok = eff(&s_ctx, &[]) == eff(&c_ctx, &[]);
     let cred_ok = cred_reg == cred_srv;
     let expect_match = idu_ok && ids_ok && ctx_ok && cred_ok;
+    // a value beyond the 65535-byte limit (only ever produced by extending a 65535-byte value)
+    // must be refused by the step that receives it; it can never make a login succeed
+    let over = |v: &Option<Vec<u8>>| v.as_ref().map(|b| b.len() > 65535).unwrap_or(false);
+    let over_reg = over(&r_idu) || over(&r_ids);
+    let over_srv = over(&s_idu) || over(&s_ids) || over(&s_ctx);
 
     let reg = flow::register(
         s,
@@ -317,7 +323,18 @@ pub fn check(s: &'static dyn Proto, c: &Case, st: &mut Stats, _k: &KnownFindings
         &t(1),
         &t(2),
     )
-    .map_err(|e| Fail::new(format!("registration failed: {e:?}")))?;
+    ;
+    let reg = match (reg, over_reg) {
+        (Err(_), true) => {
+            st.eval(1);
+            st.label("verdict:over-limit-refused-at-registration");
+            st.nontrivial(&(m.name, c));
+            return Ok(());
+        }
+        (Ok(_), true) => return Err(Fail::new(format!("registration accepted an identity longer than 65535 bytes (family {})", c.family))),
+        (Err(e), false) => return Err(Fail::new(format!("registration failed: {e:?}"))),
+        (Ok(r), false) => r,
+    };
     {
         let up2 = s.ser(Codec::Native, &reg.upload);
         ensure!(
@@ -345,7 +362,18 @@ pub fn check(s: &'static dyn Proto, c: &Case, st: &mut Stats, _k: &KnownFindings
         &t(3),
         &t(4),
     )
-    .map_err(|e| Fail::new(format!("login start failed: {e:?}")))?;
+    ;
+    let lo = match (lo, over_srv) {
+        (Err(_), true) => {
+            st.eval(1);
+            st.label("verdict:over-limit-refused-at-server-start");
+            st.nontrivial(&(m.name, c));
+            return Ok(());
+        }
+        (Ok(_), true) => return Err(Fail::new(format!("ServerLogin::start accepted a parameter longer than 65535 bytes (family {})", c.family))),
+        (Err(e), false) => return Err(Fail::new(format!("login start failed: {e:?}"))),
+        (Ok(l), false) => l,
+    };
     st.eval(1);
     let why = format!(
         "family={} id_u_ok={idu_ok} id_s_ok={ids_ok} ctx_ok={ctx_ok} cred_ok={cred_ok}",
